@@ -109,8 +109,10 @@ def pending_marker_family(tier, rng, wd, first):
             far = [a for a in range(c1 - 330, c1 - 13, 7) if a >= 1 and s2 > n and (level == 0 or tier == "thorough")]
             for ao in far + list(range(max(1, c1 - 13), c1 + 2)):
                 if s2 > n and tier == "quick" and not (ao <= c1 - 1 and (ao >= c1 - 10 or ao in far)): continue
-                for variant in range(3 if s2 == n else 1):
-                    calls = [[n, ao, 2, 0]] + ([[s2, 1 << 20, 2, 1]] if variant == 0 else [[s2, 1 << 20, 2, 0], [0, 1 << 17, 0, 1]] if variant == 1 else [[0, 3, 2, 0], [s2, 1 << 20, 2, 0], [0, 1 << 17, 0, 1]])
+                for variant in range(6 if s2 == n else 1):
+                    # (variants 3-5: the completing call brings the new input with only 10 / 12 / 14 bytes of room, so a few bytes are left behind the marker)
+                    calls = [[n, ao, 2, 0]] + ([[s2, 1 << 20, 2, 1]] if variant == 0 else [[s2, 1 << 20, 2, 0], [0, 1 << 17, 0, 1]] if variant == 1 else [[0, 3, 2, 0], [s2, 1 << 20, 2, 0], [0, 1 << 17, 0, 1]] if variant == 2
+                                              else [[s2, 4 + 2 * variant, [2, 1][variant % 2], 0], [0, 1 << 17, 2, 0], [0, 1 << 17, 0, 1]])
                     out.append(igz.scenario(scn=first + len(out), api="deflate", inp=seg + tail, level=level, wrap=wrap, lbuf=lbuf, mem=mem, calls=calls, tail_ao=1 << 17,
                                             meta={"family": "full-flush-marker-staged-then-more-input", "cls": "copy"}))
     return out
